@@ -325,6 +325,16 @@ func (a *errAnalyzer) analyse(s *errSite) errVerdict {
 						return errVerdict{kind: "propagated", pos: s.pos, detail: "recorded in an error field of the adaptor object (the function itself cannot return an error); delivered by the owner of that object"}
 					}
 				}
+				// the same through a helper of the adaptor: s.recordErr(err)
+				if call, ok := in.(*ssa.Call); ok {
+					if callee := call.Common().StaticCallee(); callee != nil && callee.Blocks != nil {
+						for ai, arg := range call.Common().Args {
+							if carriers[arg] && ai < len(callee.Params) && storesParamToErrField(callee, callee.Params[ai]) {
+								return errVerdict{kind: "propagated", pos: s.pos, detail: "recorded in an error field of the adaptor object through " + ssaFuncID(callee) + " (the function itself cannot return an error); delivered by the owner of that object"}
+							}
+						}
+					}
+				}
 			}
 		}
 	}
@@ -603,6 +613,20 @@ func (a *errAnalyzer) enter(from, to *ssa.BasicBlock, env pathEnv, visited map[*
 }
 
 // returnsParam: every Return of fn returns the given parameter as its (single) error result.
+// storesParamToErrField: the function stores its parameter p into an error-typed field (on some path).
+func storesParamToErrField(fn *ssa.Function, p *ssa.Parameter) bool {
+	for _, b := range fn.Blocks {
+		for _, in := range b.Instrs {
+			if st, ok := in.(*ssa.Store); ok && st.Val == ssa.Value(p) {
+				if fa, ok := st.Addr.(*ssa.FieldAddr); ok && isErrorType(fa.Type().(*types.Pointer).Elem()) {
+					return true
+				}
+			}
+		}
+	}
+	return false
+}
+
 func returnsParam(fn *ssa.Function, p *ssa.Parameter) bool {
 	// every return hands the parameter back, or lies on a path where the parameter was tested to be nil
 	if len(fn.Blocks) == 0 {
